@@ -29,7 +29,7 @@ static Case gen_case ()
 	c.seti ("nops", *rangeOf<int> (0, 20)) ;
 	c.seti ("frames", *rc::gen::element (0, 1, 100, 5000)) ;
 	c.seti ("nchunks", *rc::gen::element (0, 0, 3, 25, 60)) ;
-	c.seti ("mut", *rangeOf<int> (0, 5)) ; c.seti ("cut", *rangeOf<int> (0, 1000)) ;
+	c.seti ("mut", *rangeOf<int> (0, 7)) ; c.seti ("cut", *rangeOf<int> (0, 1000)) ;
 	c.seti ("fault_at", *rangeOf<int> (1, 60)) ; c.seti ("fault_kind", *rangeOf<int> (1, FK_COUNT - 1)) ; c.seti ("persistent", *rangeOf<int> (0, 1)) ;
 	return c ;
 }
@@ -101,7 +101,13 @@ static Result run_case (const Case &c)
 	if (kind != "hist" || mode != SFM_WRITE)
 	{	MemFile w ; SNDFILE *f = open_write_mem (w, s) ;
 		if (f)
-		{	for (int i = 0 ; i < 4 ; i++) alloc_commands (f, rng, ch, true) ;
+		{	// half of the files carry cue points and strings but no instrument (AIFF writes its MARK chunk only then)
+			if (c.geti ("seed") & 1)
+			{	static SF_CUES cu ; memset (&cu, 0, sizeof (cu)) ; cu.cue_count = 4 ; for (uint32_t i = 0 ; i < 4 ; i++) { cu.cue_points [i].indx = (int) i + 1 ; cu.cue_points [i].sample_offset = 10 * i ; snprintf (cu.cue_points [i].name, sizeof (cu.cue_points [i].name), "cue %u", i) ; }
+				sf_command (f, SFC_SET_CUE, &cu, sizeof (cu)) ; sf_set_string (f, SF_STR_ARTIST, "an artist") ; sf_set_string (f, SF_STR_COPYRIGHT, "(c) someone") ;
+				for (int i = 0 ; i < 2 ; i++) { int k ; Rng r2 (rng.next ()) ; do { k = (int) r2.below (12) ; } while (k == 4) ; (void) k ; }
+			}
+			else for (int i = 0 ; i < 4 ; i++) alloc_commands (f, rng, ch, true) ;
 			// many custom chunks, so that readers grow their chunk tables (capacity steps at 20, 31, 48, ...)
 			for (long long i = 0, n = c.geti ("nchunks") ; i < n ; i++) { SF_CHUNK_INFO ci ; memset (&ci, 0, sizeof (ci)) ; snprintf (ci.id, sizeof (ci.id), "c%03lld", i) ; ci.id_size = 4 ; char pl [8] = "abcdefg" ; ci.data = pl ; ci.datalen = 8 ; if (sf_set_chunk (f, &ci) != 0) break ; }
 			std::vector<short> a ((size_t) frames * ch) ; for (auto &x : a) x = (short) rng.next () ; if (frames) sf_writef_short (f, a.data (), frames) ;
@@ -128,6 +134,8 @@ static Result run_case (const Case &c)
 	}
 	else if (kind == "malformed")
 	{	std::vector<uint8_t> bytes = valid ; int mut = (int) c.geti ("mut") ; size_t cut = bytes.empty () ? 0 : (size_t) c.geti ("cut") * bytes.size () / 1000 ;
+		// every other case the cut / flip position falls into the first 2 KiB, where the header chunks are
+		if (!bytes.empty () && (c.geti ("cut") & 1)) cut = (size_t) c.geti ("cut") * std::min<size_t> (bytes.size (), 2048) / 1000 ;
 		if (!bytes.empty ())
 		{	switch (mut)
 			{	case 0 : bytes.resize (cut) ; break ;
@@ -135,12 +143,26 @@ static Result run_case (const Case &c)
 				case 2 : bytes [cut % bytes.size ()] ^= (uint8_t) (1 + rng.below (255)) ; break ;
 				case 3 : for (size_t i = 4 ; i + 4 <= bytes.size () && i < 4096 ; i += 1 + rng.below (64)) if (rng.below (4) == 0) memset (bytes.data () + i, rng.below (2) ? 0xff : 0, 4) ; break ;
 				case 4 : bytes.resize (cut) ; if (!bytes.empty ()) bytes [rng.below (std::min<size_t> (bytes.size (), 64))] ^= 0x40 ; break ;
+				case 6 : case 7 :
+				{	// exactly one field damaged: the size of one chunk (RIFF / FORM families), else one 4-byte field of the header area - a parser
+					// that has already built per-chunk state then meets one bad chunk
+					auto cks = walk_iff (bytes) ; static const uint32_t vals [] = { 0xffffff00u, 0x7fffffffu, 0x00010000u, 0, 3, 0x80000000u } ; uint32_t v = vals [rng.below (6)] ;
+					size_t at = !cks.empty () ? cks [(size_t) c.geti ("cut") % std::min<size_t> (cks.size (), 8)].hdr + 4 : cut ; /* the metadata chunks come first */ bool be = bytes.size () >= 4 && (memcmp (bytes.data (), "FORM", 4) == 0 || memcmp (bytes.data (), "RIFX", 4) == 0) ;
+					for (size_t i = 0 ; i < 4 && at + i < bytes.size () ; i++) bytes [at + i] = (uint8_t) (be ? v >> (24 - 8 * i) : v >> (8 * i)) ;
+				} break ;
 				default : for (int i = 0 ; i < 8 ; i++) bytes [rng.below (std::min<size_t> (bytes.size (), 256))] = (uint8_t) rng.next () ; break ;
 			}
 		}
+		if ((s.format & SF_FORMAT_TYPEMASK) == SF_FORMAT_SD2 && route != "mem") route = "path" ;
+		// truncations: seven more cut points spread over the header area are opened (and closed again) before the main one, so
+		// that a parser failing after it has allocated per-chunk state is met with useful probability
+		if ((mut == 0 || mut == 4) && !valid.empty ()) for (int i = 1 ; i < 8 ; i++)
+		{	std::vector<uint8_t> b2 = valid ; size_t area = std::min<size_t> (valid.size (), 2048) ; b2.resize ((cut + (size_t) i * area / 8) % (area + 1)) ;
+			MemFile m2 ; SF_INFO i2 ; memset (&i2, 0, sizeof (i2)) ; if ((s.format & SF_FORMAT_TYPEMASK) == SF_FORMAT_RAW) { i2.format = s.format ; i2.channels = ch ; i2.samplerate = 44100 ; }
+			Opened o2 = open_route (route, SFM_READ, &i2, m2, &b2) ; if (!o2.f) failed_open = true ; std::string cb = close_route (o2) ; if (!cb.empty ()) closebad = cb ;
+		}
 		MemFile mf ; SF_INFO info ; memset (&info, 0, sizeof (info)) ;
 		if ((s.format & SF_FORMAT_TYPEMASK) == SF_FORMAT_RAW) { info.format = s.format ; info.channels = ch ; info.samplerate = 44100 ; }
-		if ((s.format & SF_FORMAT_TYPEMASK) == SF_FORMAT_SD2 && route != "mem") route = "path" ;
 		Opened o = open_route (route, SFM_READ, &info, mf, &bytes) ;
 		if (!o.f) failed_open = true ;
 		else
@@ -180,7 +202,11 @@ static Result run_case (const Case &c)
 	{	std::string d ; for (auto &n : tmp1) if (std::find (tmp0.begin (), tmp0.end (), n) == tmp0.end ()) { d += " " + n ; unlink ((scratch_dir () + "/" + n).c_str ()) ; }
 		return fail ("temp_file_left", d) ;
 	}
-	if (__lsan_do_recoverable_leak_check ()) return fail ("memory_leak", "LeakSanitizer reports a leak after this case (see stderr)") ;
+	// LeakSanitizer keeps reporting a block once it has leaked: after the first report every later case (every shrink candidate
+	// included) would "fail" too and the shrunk case would not be the culprit.  So the first leaking case is reported as it is
+	// (no shrinking) and the check is switched off for the rest of this process.
+	static bool leak_reported = false ;
+	if (!leak_reported && __lsan_do_recoverable_leak_check ()) { leak_reported = true ; return fail ("memory_leak", "LeakSanitizer reports a leak after this case (see stderr)") ; }
 	return r ;
 }
 
